@@ -28,7 +28,28 @@ func singleOp(t *Ty, vw view.View, o hop, h tree.HashFn) string {
 			obs := iterObsN(t, vw, h, 1)
 			for _, kv := range strings.Split(obs, " ") {
 				if strings.HasPrefix(kv, o.kind+"=") {
-					return kv[len(o.kind)+1:]
+					res := kv[len(o.kind)+1:]
+					if cv, ok := vw.(*view.ContainerView); ok && o.kind == "ro" {
+						// the bulk getter is the same walk: an error exactly when the read-only
+						// iteration reports one, otherwise every field, equal to what Get returns
+						fv, err := cv.FieldValues()
+						hasErr := strings.Contains(res, "ERR")
+						if (err != nil) != hasErr {
+							return "FIELDVALUES-MISMATCH"
+						}
+						if err == nil {
+							if len(fv) != len(t.Fields) {
+								return "FIELDVALUES-MISMATCH"
+							}
+							for i, x := range fv {
+								gv, gerr := cv.Get(uint64(i))
+								if x == nil || gerr != nil || x.HashTreeRoot(h) != gv.HashTreeRoot(h) {
+									return "FIELDVALUES-MISMATCH"
+								}
+							}
+						}
+					}
+					return res
 				}
 			}
 			return "ERR"
